@@ -486,6 +486,9 @@ def rules(rep, facts):
         from .rules_c14 import r2_despan
         r2_despan(rep, facts)
         rep.relabel('C14/R2', 'C15/R8', 'errors from a document without source text carry no stale range: ')
+        from .rules_c14 import r9_header_span_kept
+        r9_header_span_kept(rep, facts)
+        rep.relabel('C14/R9', 'C15/R9', 'an error about a table is located at the table: ')
 
 
 def run(tier):
